@@ -238,7 +238,7 @@ def history_loss(res, r, tier):
     """the objective after a SECOND setup on one (warm-started or cold) engine is the objective of the second call's measurement list:
     grown lists that change the model cliques, a replaced answer vector, a removed measurement"""
     from mbi import Domain, FactoredInference
-    for ci in range(12 if tier == 'quick' else 120):
+    for ci in range(40 if tier == 'quick' else 300):
         dom, meas, table = gen_case(r)
         if len(meas) < 2:
             continue
